@@ -9,7 +9,9 @@ from vlib import common
 ctx = common.Ctx("SETUP", "quick", 0)
 # translators first (generated files are needed by the Coq build)
 tr = ctx.build_harness("translate")
-for what, out in (("grpcstatus", "GrpcStatusGen.v"), ("consts", "ConstGen.v")):
+for what, out in (("grpcstatus", "GrpcStatusGen.v"), ("consts", "ConstGen.v"),
+                  ("gofn-math", "GoFnMathGen.v"), ("gofn-mp", "GoFnMpGen.v"), ("gofn-httpgun", "GoFnHttpgunGen.v"),
+                  ("gofn-istep", "GoFnIstepGen.v"), ("gofn-waiter", "GoFnWaiterGen.v")):
     common.translate(ctx, what, out)
 props = sorted(os.path.basename(p)[:-10] for p in glob.glob(os.path.join(common.VERIF, "checks", "C*.meta.json")))
 targets = []
